@@ -497,6 +497,19 @@ async fn sender_task(w: Rc<World>, sidx: usize, sink: v3::MqttSink, ops: Vec<App
             w.ev(Ev::OpDone { sender: sidx, op: opj, res });
             continue;
         }
+        if let AppOp::Unpolled { what } = &op {
+            let payload = Bytes::from(make_payload(op_tag(sidx, opi), 3));
+            match what {
+                0 => drop(sink.ready()),
+                1 => drop(sink.publish(op_topic(sidx, opi)).send_at_least_once(payload)),
+                _ => drop(sink.publish(op_topic(sidx, opi)).send_exactly_once(payload)),
+            }
+            w.fault(0, "cancel_unpolled", u64::from(*what));
+            w.ev(Ev::OpCancel { sender: sidx, op: opi });
+            w.sender_op_done(sidx);
+            w.ev(Ev::OpDone { sender: sidx, op: opi, res: OpResult::Cancelled });
+            continue;
+        }
         let fut = exec_op(&w, sidx, opi, &op, &sink);
         let res = match select(fut, w.sender_cancelled(sidx)).await {
             Either::Left(r) => r,
@@ -529,7 +542,7 @@ async fn exec_op(w: &Rc<World>, sidx: usize, opi: usize, op: &AppOp, sink: &v3::
                 Err(e) => OpResult::Err(err_str(&e)),
             }
         }
-        AppOp::PubQ2 { .. } | AppOp::Release | AppOp::DropReceipt => OpResult::Err("no-receipt".into()),
+        AppOp::PubQ2 { .. } | AppOp::Release | AppOp::DropReceipt | AppOp::Unpolled { .. } => OpResult::Err("no-receipt".into()),
         AppOp::Subscribe { n, pid } => {
             let mut b = sink.subscribe();
             if let Some(p) = pid {
